@@ -70,11 +70,18 @@ func NewLevelListOfTables(tables [][]*Table) *LevelList {
 
 func NewLevelListFromDocument(fs storage.FileSystem, dataOwnership kv.DataOwnership, llDoc [][]TableDocument) *LevelList {
 	// Fill a matrix of levels using llDoc
+	// A restoring owner that knows its key range skips tables that hold none of
+	// its keys: it must not keep references to files whose exclusive owner
+	// (another operator) is free to delete them.
+	rangeOwner, _ := dataOwnership.(kv.TableRangeOwnership)
 	levels := make([][]*Table, len(llDoc))
 	for i, levelDoc := range llDoc {
-		levels[i] = make([]*Table, len(levelDoc))
-		for j, tableDoc := range levelDoc {
-			levels[i][j] = NewTableFromDocument(fs, dataOwnership, tableDoc)
+		levels[i] = make([]*Table, 0, len(levelDoc))
+		for _, tableDoc := range levelDoc {
+			if rangeOwner != nil && !rangeOwner.OverlapsTable(tableDoc.StartKey, tableDoc.EndKey) {
+				continue
+			}
+			levels[i] = append(levels[i], NewTableFromDocument(fs, dataOwnership, tableDoc))
 		}
 	}
 
